@@ -60,6 +60,7 @@ type Run struct {
 	distinctBy   map[string]map[uint64]struct{}
 	samples      []any
 	maxSamples   int
+	keySamples   []string // first distinct case keys; fallback samples when a harness records none
 	violations   map[string]*violation
 	known        map[string]*violation
 	inconclusive []string
@@ -209,6 +210,9 @@ func (r *Run) Max(name string, v int64) {
 func (r *Run) Distinct(key string) {
 	h := hash64(key)
 	r.mu.Lock()
+	if _, seen := r.distinct[h]; !seen && len(r.keySamples) < r.maxSamples {
+		r.keySamples = append(r.keySamples, key)
+	}
 	r.distinct[h] = struct{}{}
 	r.mu.Unlock()
 }
@@ -373,7 +377,17 @@ func (r *Run) finish(rule string) int {
 			fmt.Fprintln(os.Stderr, "INCONCLUSIVE:", msg)
 		}
 	}
+	if r.childOut == "" && len(r.samples) == 0 && len(r.keySamples) == 0 {
+		msg := "no case sample recorded (the run observed nothing it could show)"
+		r.inconclusive = append(r.inconclusive, msg)
+		fmt.Fprintln(os.Stderr, "INCONCLUSIVE:", msg)
+	}
 	if r.childOut != "" {
+		if len(r.samples) == 0 {
+			for _, k := range r.keySamples {
+				r.samples = append(r.samples, map[string]any{"distinct_case_key": k})
+			}
+		}
 		st := childState{Evals: r.evals, Counters: r.counters, Samples: r.samples,
 			Inconclusive: r.inconclusive, Assumptions: r.assumptions, Notes: r.notes,
 			DistinctBy: map[string][]uint64{}, MaxKeys: r.maxKeys}
@@ -423,7 +437,11 @@ func (r *Run) writeEvidence(rule string) {
 	cov["rule"] = rule
 	samples := r.samples
 	if len(samples) == 0 {
+		// no explicit Sample: fall back to the first distinct case keys seen in this run
 		samples = []any{}
+		for _, k := range r.keySamples {
+			samples = append(samples, map[string]any{"distinct_case_key": k})
+		}
 	}
 	cov["samples"] = samples
 	cov["counters"] = r.counters
